@@ -348,13 +348,13 @@ def check_stored(res, span, kind):
         g = lib.outcome(lambda: GeneInterval([o[1]], parent_or_seq_chunk_parent=par))
         if g[0] == "ok":
             objs["gene"] = g[1]
-    if e - s >= 5:
+    if e - s >= 2 and s >= (1 << 17) and kind != "chunk":
         # three blocks handed over in ROTATED order (last block first): the stored bin is that of the genomic span all the same
         from inscripta.biocantor.gene.transcript import TranscriptInterval
         from inscripta.biocantor.gene.feature import FeatureInterval
 
-        s0 = max(0, s - (1 << 17))  # (the first block one whole 128 kb bin below the others: a start taken from another block changes the bin)
-        bl3 = [(e - 1, e), (s0, s0 + 1), (s + 2, s + 3)]
+        s0 = s - (1 << 17)  # (the first block one whole 128 kb bin below the others: a start taken from another block changes the bin)
+        bl3 = [(e - 1, e), (s0, s0 + 1), (s, s + 1)]
         for nm_, cls_ in (("transcript-rotated", TranscriptInterval), ("feature-rotated", FeatureInterval)):
             r3 = lib.outcome(lambda: cls_([b[0] for b in bl3], [b[1] for b in bl3], lib.STRAND["+"], parent_or_seq_chunk_parent=par))
             if r3[0] == "ok":
